@@ -113,3 +113,34 @@ V('C03-silent-node-inside-stricter', 'C03', RT, "                if (node_bounds
 V('C03-silent-mirrored-compare', 'C03', RT, "                outside_mask |= (bounds_slice[:, d] > query_bounds[d + n])\n\n            next_slice", "                outside_mask |= (query_bounds[d + n] < bounds_slice[:, d])\n\n            next_slice", expect='silent')
 V('C03-silent-leaf-positive-form', 'C03', RT, "            outside_mask = ~self._valid_mask(start, stop)\n            for d in range(n):\n                outside_mask |= (bounds_slice[:, d + n] < query_bounds[d])\n                outside_mask |= (bounds_slice[:, d] > query_bounds[d + n])\n\n            next_slice = next_slice[~outside_mask]",
   "            keep_mask = np.ones(bounds_slice.shape[0], dtype=np.bool_)\n            for d in range(n):\n                keep_mask &= (bounds_slice[:, d + n] >= query_bounds[d])\n                keep_mask &= (bounds_slice[:, d] <= query_bounds[d + n])\n\n            next_slice = next_slice[keep_mask]", expect='silent')
+
+# ------------------------------------------------------------------------------------------------ C20
+V('C20-metadata-dropped', 'C20', GD, "    _metadata = ['_geometry']", "    _metadata = []", rule='C20.a')
+V('C20-sjoin-first-geometry', 'C20', SJ, "    sindex = left_df.geometry.sindex", "    sindex = left_df[[c for c in left_df.columns if c != 'x'][0]].sindex", rule='C20.b')
+V('C20-sjoin-right-iloc', 'C20', SJ, "    right_geom = right_df.geometry.array", "    right_geom = right_df.iloc[:, 0].array", rule='C20.b', analysis_error_ok=True)
+V('C20-build-sindex-literal', 'C20', GD, "        self.geometry.build_sindex(**kwargs)", "        self['geometry'].build_sindex(**kwargs)", rule='C20.b')
+V('C20-hilbert-first-col', 'C20', D, "        geometry = self.geometry\n        # Compute distance", "        geometry = self[self.columns[0]]\n        # Compute distance", rule='C20.b')
+V('C20-reintroduce-D8', ['C20', 'C06'], PQ, "            convert_string=convert_string,\n            geometry=geometry,\n        )", "            convert_string=convert_string,\n        )", rule=None, rules={'C20': 'C20.d', 'C06': 'C06.d'})
+V('C20-reintroduce-D10a', ['C20'], GD, """    def __finalize__(self, other, method=None, **kwargs):
+        result = super().__finalize__(other, method=method, **kwargs)
+        # pandas only propagates _metadata from a single source frame. When several
+        # objects are combined (concat, merge) adopt the active geometry that all
+        # GeoDataFrame inputs agree on, provided the column is still present.
+        input_objs = getattr(other, "input_objs", None)
+        if input_objs is not None and not isinstance(other, pd.DataFrame):
+            geometries = {obj._geometry for obj in input_objs
+                          if isinstance(obj, GeoDataFrame) and obj._has_valid_geometry()}
+            if len(geometries) == 1:
+                geometry = geometries.pop()
+                if ((result.columns == geometry).sum() == 1 and
+                        isinstance(result[geometry].dtype, GeometryDtype)):
+                    result._geometry = geometry
+        return result
+
+""", "", rule='C20.e')
+V('C20-reintroduce-D10c', ['C20', 'C06'], D, "    return GeoDataFrame(meta_nonempty(pd.DataFrame(df.head(0))), geometry=geometry)", "    return GeoDataFrame(meta_nonempty(pd.DataFrame(df.head(0))))", rule=None, rules={'C20': 'C20.e', 'C06': 'C06.d'})
+V('C20-reintroduce-D10b', ['C20'], SJ, "        return GeoDataFrame(joined, geometry=geometry)\n", "        return GeoDataFrame(joined)\n", rule='C20.e')
+V('C20-dask-set-geometry-meta-only', ['C20', 'C06'], D, "            return self.map_partitions(lambda df: df.set_geometry(geometry))", "            return self.map_partitions(lambda df: df, meta=self._meta.set_geometry(geometry))", rule=None, rules={'C20': 'C20.d', 'C06': 'C06.d'})
+V('C20-set-geometry-unvalidated', 'C20', GD, "        if (geometry not in self or\n                not isinstance(self[geometry].dtype, GeometryDtype)):", "        if geometry is None:", rule='C20.c')
+V('C20-ctor-no-inherit', 'C20', GD, "            if isinstance(data, GeoDataFrame) and data._has_valid_geometry():\n                geometry = data._geometry", "            if isinstance(data, GeoDataFrame) and data._has_valid_geometry():\n                geometry = first_geometry_col", rule='C20.c')
+V('C20-silent-rename-local', 'C20', SJ, "    sindex = left_df.geometry.sindex", "    left_series = left_df.geometry\n    sindex = left_series.sindex", expect='silent')
